@@ -13,8 +13,8 @@ Built on engine/c02env.py (byte-accurate FakeReader) and engine/codec.py (byte p
 * Observer: listens on the REAL EventBus, keeps per connection the reported states, deliveries and transport writes
   with a global sequence number, and evaluates the C10 clauses with its own notion of "open" (what the fake
   transports say), not with Connection.state.
-* reference encoders / decoders for the handful of messages the scenarios use (written from the protocol
-  description, independent of aioslsk.protocol).
+* reference encoders for the handful of messages the scenarios use (written from the protocol description,
+  independent of aioslsk.protocol; compared with the real serializers in the prelude of props/c10.py).
 """
 from __future__ import annotations
 
@@ -25,10 +25,10 @@ import sys
 import z3
 
 from engine import symex, codec, c02env
-from engine.codec import SBytes, SWord
-from engine.c02env import FakeReader, FakeServer, le_value, v_eq, terms
+from engine.codec import SWord
+from engine.c02env import FakeReader, FakeServer
 
-from aioslsk.network.connection import (Connection, DataConnection, PeerConnection, ServerConnection, ListeningConnection,
+from aioslsk.network.connection import (DataConnection, PeerConnection, ServerConnection, ListeningConnection,
                                         ConnectionState)
 
 RANK = {ConnectionState.UNINITIALIZED: 0, ConnectionState.CONNECTING: 1, ConnectionState.CONNECTED: 2,
@@ -550,16 +550,6 @@ def server_connect_to_peer(username, typ, ip_terms, port, ticket, privileged_byt
 
 def obfuscate(plain, key_terms):
     return c02env.ref_obfuscate(plain, list(key_terms))
-
-
-def ref_first_frame(body, expected_tickets):
-    """reference verdict on the first frame of an accepted connection.  body: byte terms of the frame body (after the
-    length prefix).  Returns (is_init, is_pierce_known) as python bool / z3 Bool:
-      PeerInit         code 1, string username, string typ, then a ticket of 4 or 8 bytes (texts must decode)
-      PeerPierceFirewall code 0 followed by at least 4 bytes; known iff the ticket equals an expected one
-    Text decodability is left to the caller (it passes well-formed text or uses `any` frames with the weaker
-    oracle)."""
-    raise NotImplementedError
 
 
 STUBS = [
